@@ -535,11 +535,14 @@ func (r *trig) shutdown() {
 	r.closed = true
 	r.p.Close()
 	close(r.dead)
-	if r.cc != nil {
-		r.cc.Close()
-	}
 	done := make(chan struct{})
-	go func() { r.wg.Wait(); close(done) }()
+	go func() {
+		if r.cc != nil {
+			r.cc.Close() // can block for ever when the transport is wedged
+		}
+		r.wg.Wait()
+		close(done)
+	}()
 	select {
 	case <-done:
 	case <-time.After(watchdog):
